@@ -5,6 +5,7 @@ package main
 import (
 	"fmt"
 	"go/types"
+	"math"
 	"strings"
 
 	"golang.org/x/tools/go/ssa"
@@ -324,12 +325,12 @@ func (p *Path) fmtArg(verb byte, v Value) *Str {
 		}
 		// error / Stringer
 		if verb == 's' || verb == 'v' || verb == 'q' {
-			if m := p.prog.LookupMethod(ifc.T, nil, "Error"); m != nil && verb != 'd' {
+			if m := p.safeLookup(ifc.T, "Error"); m != nil && verb != 'd' {
 				if s, ok := p.tryCallStringMethod(m, ifc.V); ok {
 					return s
 				}
 			}
-			if m := p.prog.LookupMethod(ifc.T, nil, "String"); m != nil {
+			if m := p.safeLookup(ifc.T, "String"); m != nil {
 				if s, ok := p.tryCallStringMethod(m, ifc.V); ok {
 					return s
 				}
@@ -361,6 +362,13 @@ func (p *Path) fmtArg(verb byte, v Value) *Str {
 					return e.strOf(string(rune(x.u)))
 				}
 				return e.strOf(fmt.Sprintf("%d", x.S()))
+			}
+		}
+		if x.sort.K == SBV && (verb == 'd' || verb == 'v') {
+			// a term the path condition pins to one value formats like that value
+			if v, ok := p.uniqueValue(x); ok {
+				c := p.e.ts.BV(x.sort.W, v)
+				return e.strOf(fmt.Sprintf("%d", c.S()))
 			}
 		}
 		return &Str{b: []*Term{e.byteConst['?']}, opaque: true}
@@ -710,3 +718,48 @@ func (p *Path) zeroTime() Value {
 }
 
 var _ = types.Identical
+
+// safeLookup: LookupMethod panics for types without the method, so look first.
+func (p *Path) safeLookup(t types.Type, name string) *ssa.Function {
+	ms := p.prog.MethodSets.MethodSet(t)
+	for i := 0; i < ms.Len(); i++ {
+		if ms.At(i).Obj().Name() == name && ms.At(i).Obj().Exported() {
+			return p.prog.MethodValue(ms.At(i))
+		}
+	}
+	return nil
+}
+
+// uniqueValue returns v if the path condition implies t == v.
+func (p *Path) uniqueValue(t *Term) (uint64, bool) {
+	if t.isConst {
+		return t.u, true
+	}
+	v, ok := p.e.solver.EvalTerm(t)
+	if !ok {
+		return 0, false
+	}
+	ts := p.e.ts
+	if p.e.solver.CheckWith(ts.Not(ts.Eq(t, ts.BV(t.sort.W, v)))) == "unsat" {
+		return v, true
+	}
+	return 0, false
+}
+
+func init() {
+	// float helpers: evaluated concretely on constants, otherwise an arbitrary value
+	fp1 := func(name string, f func(float64) float64) {
+		externals[name] = func(p *Path, fr *frame, a []Value) Value {
+			x := a[0].(*Term)
+			if x.isConst {
+				return p.e.ts.FP(64, f(x.F()))
+			}
+			return p.newFPInput(name)
+		}
+	}
+	fp1("math.Log10", math.Log10)
+	fp1("math.Log", math.Log)
+	fp1("math.Ceil", math.Ceil)
+	fp1("math.Floor", math.Floor)
+	fp1("math.Exp", math.Exp)
+}
